@@ -26,7 +26,7 @@ type c09Case struct {
 }
 
 const c09Rule = "case = well-formed IPFIX or NetFlow v9 message M (generator of C03/C06, templates pre-announced and/or in-message) + 0..3 undecodable sets U inserted at drawn positions (in 1 case of 20 also 15..65 small unknown-template sets): " +
-	"unknown template id with any body (random, zeros, or bytes that look like valid sets), reserved id 4..255 with any body, data for an announced template that names an element missing from the information model (also among its scope fields; also when that definition supersedes an earlier, fully known definition of the same id), data for a template that the message itself announces only later; " +
+	"unknown template id with any body (random, zeros, or bytes that look like valid sets), reserved id 4..255 with any body, data for an announced template that names an element missing from the information model (also among its scope fields; also when that definition supersedes an earlier, fully known definition of the same id), data for a template that the message itself announces only later, data naming a template whose records cannot fit any set (field lengths summing beyond a datagram / beyond 16 bits); " +
 	"oracle (a) insertion: records(M+U) == records(M) and a non-empty unknown-template set is reported as an error; " +
 	"(b) truncation, enumerated for EVERY offset 0..len of M and of M+U against an identically prepared cache: records of the prefix (nil message = none) form a prefix of the full decode's records; " +
 	"non-trivial = the message carries >= 1 data record (so some offsets cut inside a record) ; label 'U-between-data-sets' marks the sandwich shape; distinct by hash"
@@ -127,11 +127,26 @@ func genC09(t *rapid.T, env *wire.GenEnv) c09Case {
 				}
 			}
 		}
-		kind := rapid.IntRange(0, 3).Draw(t, "inskind")
+		kind := rapid.IntRange(0, 4).Draw(t, "inskind")
 		if kind == 3 && len(lates) == 0 {
 			kind = 0
 		}
 		switch kind {
+		case 4:
+			// data naming an announced template whose records cannot fit any set (field lengths summing to more than a
+			// datagram, also to more than 16 bits): nothing of it can be decoded, the neighbours must not notice
+			in.Kind = "oversized-template"
+			k := uint16(rapid.IntRange(1, 40).Draw(t, "wrapk"))
+			lens := rapid.SampledFrom([][]uint16{{32768, 32768 + k}, {0x7fff, 0x7fff, 2 + k}, {65534, 2 + k}, {40000, 40000, k}, {16384, 16384, 16384, 16384 + k}, {65000, k}, {65534}}).Draw(t, "wraplens")
+			tp := wire.Template{ID: freshID()}
+			for i, l := range lens {
+				tp.Fields = append(tp.Fields, wire.Field{ID: []uint16{210, 313, 314, 315, 316}[i%5], Len: l, Type: wire.TOctetArray})
+			}
+			var m wire.Msg
+			env.GenHeader(t, &m)
+			m.Sets = []wire.Set{{Kind: "tpl", Tpls: []wire.Template{tp}}}
+			c.ExtraPre = append(c.ExtraPre, m)
+			in.Set = wire.Set{Kind: "raw", RawID: tp.ID, RawBody: body()}
 		case 3:
 			l := lates[rapid.IntRange(0, len(lates)-1).Draw(t, "late")]
 			// must stand before the announcing set and before any earlier announcement of the same id in Main
